@@ -1,6 +1,6 @@
 (* C05 — a session gains a factor only when its own user proves that factor. *)
 From Coq Require Import List NArith ZArith Bool.
-From KM Require Import Model.Session Proofs.Session.
+From KM Require Import Base.Bytes Model.Session Proofs.Session Model.Profiles Proofs.Profiles.
 Import ListNotations.
 
 (* For EVERY history (any length, any number of users and sessions, any enrolment `d`, any
@@ -10,12 +10,12 @@ Import ListNotations.
    in its level: that factor was verified for the cookie's own user, and not before the session
    began (the iat claim, which every re-signed cookie keeps): a session gains a factor only by a
    verification made during that session. *)
-Theorem c05_inv : forall d w ops c f,
-  let s := fst (run (fixed d w) init ops) in
+Theorem c05_inv : forall d w ok life ops c f,
+  let s := fst (run (fixed_with d w ok life) init ops) in
   In c (issued s) -> has (clevel c) f = true ->
   exists t, (ciat c <= t)%Z /\ In (cuser c, f, t) (proved s).
 Proof.
-  intros d w ops c f s Hc Hf. destruct (run_Inv (fixed d w) ops eq_refl eq_refl eq_refl) as [I1 _].
+  intros d w ok life ops c f s Hc Hf. destruct (run_Inv (fixed_with d w ok life) ops eq_refl eq_refl eq_refl) as [I1 _].
   destruct (I1 c Hc) as [_ J]. exact (J f Hf).
 Qed.
 
@@ -23,44 +23,155 @@ Qed.
    authenticated as (by client certificate, else by the last attached cookie) — a push approval,
    OTP, TOTP code, bootstrap OTP, hardware-token assertion or CLI token belonging to someone else —
    changes nothing but the ghost record of the presented certificate, and emits no cookie *)
-Theorem c05_no_cross_user : forall d w ops cert fault o u u',
-  let s := fst (run (fixed d w) init ops) in
-  about (fixed d w) s o = Some u -> requester (fixed d w) s cert o = Some u' -> u <> u' ->
-  step (fixed d w) s (Req cert fault o) = (present_cert s cert, None).
+Theorem c05_no_cross_user : forall d w ok life ops cert fault o u u',
+  let s := fst (run (fixed_with d w ok life) init ops) in
+  about (fixed_with d w ok life) s o = Some u -> requester (fixed_with d w ok life) s cert o = Some u' -> u <> u' ->
+  step (fixed_with d w ok life) s (Req cert fault o) = (present_cert s cert, None).
 Proof.
-  intros d w ops cert fault o u u' s Ha Hr Hne. cbn [step].
-  destruct (present_cert_Inv s cert (run_Inv (fixed d w) ops eq_refl eq_refl eq_refl)) as [HI _].
-  apply (cross_user_refused (fixed d w) cert fault (present_cert s cert) o u u' eq_refl HI); [| |exact Hne].
+  intros d w ok life ops cert fault o u u' s Ha Hr Hne. cbn [step].
+  destruct (present_cert_Inv s cert (run_Inv (fixed_with d w ok life) ops eq_refl eq_refl eq_refl)) as [HI _].
+  apply (cross_user_refused (fixed_with d w ok life) cert fault (present_cert s cert) o u u' eq_refl HI); [| |exact Hne].
   - rewrite about_present. exact Ha.
   - rewrite requester_present. exact Hr.
 Qed.
 
 (* one-time values: acceptance records the value, a recorded value is never accepted again, so
    no TOTP code, bootstrap OTP or hardware-token challenge is accepted twice in any history *)
-Theorem c05_onetime : forall d w ops o v,
-  let s := fst (run (fixed d w) init ops) in
+Theorem c05_onetime : forall d w ok life ops o v,
+  let s := fst (run (fixed_with d w ok life) init ops) in
   presents o = Some v ->
-  (snd (step (fixed d w) s o) <> None -> spent (fst (step (fixed d w) s o)) = v :: spent s) /\
-  (In v (spent s) -> snd (step (fixed d w) s o) = None) /\
+  (snd (step (fixed_with d w ok life) s o) <> None -> spent (fst (step (fixed_with d w ok life) s o)) = v :: spent s) /\
+  (In v (spent s) -> snd (step (fixed_with d w ok life) s o) = None) /\
   NoDup (spent s).
 Proof.
-  intros d w ops o v s Hp. pose proof (run_Inv2 (fixed d w) ops eq_refl eq_refl) as HJ.
+  intros d w ok life ops o v s Hp. pose proof (run_Inv2 (fixed_with d w ok life) ops eq_refl eq_refl eq_refl) as HJ.
   split; [apply accepted_spent; exact Hp|]. split.
-  - intros Hin. exact (spent_refused (fixed d w) s o v eq_refl eq_refl HJ Hp Hin).
+  - intros Hin. exact (spent_refused (fixed_with d w ok life) s o v eq_refl eq_refl eq_refl HJ Hp Hin).
   - destruct HJ as [J0 _]. exact J0.
 Qed.
 
 (* expired values never work, in any state, however the request is authenticated *)
-Theorem c05_expired : forall d w cert fault s o,
-  expired (fixed d w) s cert o = true -> step_req (fixed d w) cert fault s o = (s, None).
-Proof. intros d w cert fault s o. apply expired_refused; reflexivity. Qed.
+Theorem c05_expired : forall d w ok life cert fault s o,
+  expired (fixed_with d w ok life) s cert o = true -> step_req (fixed_with d w ok life) cert fault s o = (s, None).
+Proof. intros d w ok life cert fault s o. apply expired_refused; reflexivity. Qed.
 
 (* an expired session cookie never works: whatever else is attached, if the cookie checkAuth looks at
    (the last one) is past its exp claim, a request without client certificate changes nothing *)
-Theorem c05_cookie_expired : forall d w fault s o cs c,
-  cookies_of o = Some cs -> pick (fixed d w) (attached s cs) = Some c -> (cexp c <= now s)%Z ->
-  step_req (fixed d w) None fault s o = (s, None).
-Proof. intros d w fault s o cs c. apply expired_cookie_refused. Qed.
+Theorem c05_cookie_expired : forall d w ok life fault s o cs c,
+  cookies_of o = Some cs -> pick (fixed_with d w ok life) (attached s cs) = Some c -> (cexp c <= now s)%Z ->
+  step_req (fixed_with d w ok life) None fault s o = (s, None).
+Proof. intros d w ok life fault s o cs c. apply expired_cookie_refused. Qed.
+
+(* one-time values are FRESH.  `minted` is the ghost list of the ids of all one-time values ever handed
+   out (hardware-token challenges of both begin handlers, bootstrap OTPs, push transactions); `handed`
+   is what the correspondence observes per step (the harness numbers the distinct byte strings it is
+   handed in order of first appearance).  In every history no value is handed out twice, and the
+   value a step hands out was never handed out before, is nobody's pending challenge or stored OTP,
+   and was never accepted: a begin never revives an old value *)
+Theorem c05_fresh_values : forall d w ok life ops o i,
+  let s := fst (run (fixed_with d w ok life) init ops) in
+  let s' := fst (step (fixed_with d w ok life) s o) in
+  NoDup (minted s) /\
+  (handed s s' = Some i ->
+     ~ In i (minted s) /\ minted s' = i :: minted s /\
+     (forall u ch, chal s u = Some ch -> chid ch <> i) /\
+     (forall u b, boot s u = Some b -> bserial b <> i) /\
+     ~ In (OtChal i) (spent s) /\ (forall u, ~ In (OtBoot u i) (spent s))).
+Proof.
+  intros d w ok life ops o i s s'. pose proof (run_Inv3 (fixed_with d w ok life) ops) as HK. split.
+  - destruct HK as [K0 _]. exact K0.
+  - exact (handed_new (fixed_with d w ok life) s o i HK).
+Qed.
+
+(* ... and the expiry of a value is fixed when it is handed out: a challenge that is pending after a
+   step under the id of one that was pending before it is that same challenge (same user, same
+   ExpiresAt, same kind), likewise a stored bootstrap OTP — no operation re-stamps a pending value.
+   With c05_expired: a value never works after its ORIGINAL expiry *)
+Theorem c05_value_fixed : forall d w ok life ops o,
+  let s := fst (run (fixed_with d w ok life) init ops) in
+  let s' := fst (step (fixed_with d w ok life) s o) in
+  (forall u ch u' ch', chal s u = Some ch -> chal s' u' = Some ch' -> chid ch' = chid ch -> u' = u /\ ch' = ch) /\
+  (forall u b b', boot s u = Some b -> boot s' u = Some b' -> bserial b' = bserial b -> b' = b).
+Proof.
+  intros d w ok life ops o s s'. pose proof (run_Inv3 (fixed_with d w ok life) ops) as HK.
+  pose proof (run_Inv2 (fixed_with d w ok life) ops eq_refl eq_refl eq_refl) as HJ. split.
+  - intros u ch u' ch'. exact (chal_fixed (fixed_with d w ok life) s o u ch u' ch' HJ HK).
+  - intros u b b'. exact (boot_fixed (fixed_with d w ok life) s o u b b' HK).
+Qed.
+
+(* WHOSE enrolment a handler works with.  User names are byte strings; the profile table is the list
+   of its rows in scan order.  A name is served the row stored under EXACTLY that name (if any):
+   whatever other names the table holds — names that are patterns of it or match it as a pattern
+   under SQL LIKE, an LDAP filter, a regular expression, a path; names that differ in case or by
+   trailing blanks — and whatever the order of the rows (which account was written more recently).
+   The theorems above hold for every enrolment function `d`, in particular for
+   `devs_of names table`; the correspondence instantiates them with the rows the harness wrote. *)
+Theorem c05_profile_exact : forall n t d, lookup n t = Some d -> In (n, d) t.
+Proof. exact lookup_exact. Qed.
+
+Theorem c05_profile_save : forall n n' d t,
+  lookup n' (save n d t) = if bs_eqb n' n then Some d else lookup n' t.
+Proof. exact lookup_save. Qed.
+
+Theorem c05_profile_order : forall n t t',
+  wf t -> wf t' -> (forall r, In r t <-> In r t') -> lookup n t = lookup n t'.
+Proof. exact lookup_order. Qed.
+
+Theorem c05_profile_users : forall names t u d v,
+  (forall a b, names a = names b -> a = b) ->
+  devs_of names (save (names u) d t) v = if N.eqb v u then d else devs_of names t v.
+Proof. exact devs_of_save. Qed.
+
+(* the same table read with a pattern match (SQL LIKE) instead of equality: `j_doe` is served the row
+   of `jadoe` when that row is older or when j_doe has no row, its own row otherwise *)
+Theorem c05_like_lookup_refuted :
+  let t := save n_j_doe d_key (save n_jadoe d_totp []) in
+  let t' := save n_jadoe d_totp (save n_j_doe d_key []) in
+  wf t /\ lookup_like n_j_doe t = Some d_totp /\ ~ In (n_j_doe, d_totp) t /\
+  lookup_like n_j_doe t' = Some d_key /\
+  lookup n_j_doe t = Some d_key /\ lookup n_j_doe t' = Some d_key /\
+  lookup_like n_j_doe (save n_jadoe d_totp []) = Some d_totp /\ lookup n_j_doe (save n_jadoe d_totp []) = None.
+Proof. exact like_lookup_foreign. Qed.
+
+(* THE CACHE AS READ SOURCE.  `Cached o` is the request of o made while the primary database does not
+   answer in time: every LoadUserProfile of the request is served from the cache copy and says so.
+   The history theorems above (c05_inv, c05_onetime, c05_fresh_values, c05_value_fixed) quantify over
+   all operations, `Cached` ones included: a second factor verified from the cache raises the session
+   like any other, a one-time value accepted from the cache is spent.  In addition: a cached request
+   writes nothing back (the persisted TOTP counter and the stored bootstrap OTPs are untouched — the
+   accepted TOTP step is remembered in memory only), values of somebody else and expired values are
+   refused exactly as with the primary *)
+Theorem c05_cached_no_write : forall d w ok life s o,
+  let s' := fst (step (fixed_with d w ok life) s (Cached o)) in
+  saved_totp s' = saved_totp s /\ boot s' = boot s.
+Proof. intros d w ok life s o. exact (cached_no_write (with_cache (fixed_with d w ok life)) None false s o eq_refl). Qed.
+
+Theorem c05_cached_no_cross_user : forall d w ok life ops o u u',
+  let k := fixed_with d w ok life in
+  let s := fst (run k init ops) in
+  about k s o = Some u -> requester k s None o = Some u' -> u <> u' -> step k s (Cached o) = (s, None).
+Proof.
+  intros d w ok life ops o u u' k s Ha Hr Hne. cbn [step].
+  exact (cross_user_refused (with_cache k) None false s o u u' eq_refl
+           (run_Inv k ops eq_refl eq_refl eq_refl) Ha Hr Hne).
+Qed.
+
+Theorem c05_cached_expired : forall d w ok life s o,
+  let k := fixed_with d w ok life in
+  expired k s None o = true -> step k s (Cached o) = (s, None).
+Proof.
+  intros d w ok life s o k He. cbn [step].
+  exact (expired_refused (with_cache k) None false s o eq_refl eq_refl He).
+Qed.
+
+(* validateUserTOTP as it was: in cached mode an accepted step was neither persisted nor remembered,
+   so the same code was accepted again (and once more after the primary came back); with the
+   in-memory guard it is accepted once, and nothing is persisted by the cached requests *)
+Theorem c05_old_cached_totp_refuted :
+  ~ NoDup (spent (fst (run (cfg_mem_guard false) init w_cached_totp))) /\
+  NoDup (spent (fst (run (cfg_mem_guard true) init w_cached_totp))) /\
+  saved_totp (fst (run (cfg_mem_guard true) init w_cached_totp)) 1%N = 0%Z.
+Proof. exact old_cached_totp. Qed.
 
 (* the statement is false of the handlers as they were *)
 Theorem c05_old_poll_refuted :
@@ -124,3 +235,37 @@ Example c05_history :
   = [None; Some (1, 2); Some (2, 2); Some (1, 66); None; None; None; Some (1, 1024); None;
      None; None; None; Some (1, 576)]%N.
 Proof. vm_compute. reflexivity. Qed.
+
+(* non-vacuity of the freshness statements: a second sign request 31 s after the first hands out a NEW
+   value (ids 0 and 1); the assertion over the first, expired, challenge is refused, the one over the
+   second accepted — once *)
+Example c05_begin_twice :
+  let d := fun _ => {| has_totp := false; has_u2f := true; has_wa := false; has_profile := true |} in
+  map (fun ob => match ob with (ok, c, i) => (ok, match c with Some c => Some (clevel c) | None => None end, i) end)
+      (run_obs (fixed d 8) init
+        [Login 1 true; U2fBegin [0%nat]; Tick 31; U2fBegin [0%nat]; U2fFinish [0%nat] (asrt 1 0 false);
+         U2fFinish [0%nat] (asrt 1 1 false); U2fFinish [0%nat] (asrt 1 1 false)])
+  = [(true, Some 2, None); (true, None, Some 0); (true, None, None); (true, None, Some 1); (false, None, None);
+     (true, Some 10, None); (false, None, None)]%N.
+Proof. vm_compute. reflexivity. Qed.
+
+(* non-vacuity of the Okta second factor (password backend = the Okta authenticator, cached answers live
+   300 s): a pass code of user 1 in user 2's session is refused, in her own accepted; a push is
+   started, polled (waiting), approved by its owner, polled by the other user (who thereby only starts
+   her own push), polled by the owner: accepted once; 300 s after the login nothing Okta works until
+   the next password check.  Without the Okta backend every Okta operation is refused *)
+Example c05_okta_history :
+  let d := fun _ : N => {| has_totp := false; has_u2f := false; has_wa := false; has_profile := true |} in
+  map (fun ob => match ob with (ok, c, i) => (ok, match c with Some c => Some (cuser c, clevel c) | None => None end) end)
+      (run_obs (fixed_okta d 128 300) init
+        [Login 1 true; Login 2 true; OktaOtp [1%nat] (VGood 1); OktaOtp [0%nat] (VGood 1);
+         OktaPushStart [1%nat]; OktaPoll [1%nat]; OktaApprove 2; OktaPoll [0%nat]; OktaPoll [1%nat]; OktaPoll [1%nat];
+         Tick 300; OktaOtp [1%nat] (VGood 2); Login 2 true; OktaOtp [4%nat] (VGood 2)])
+  = [(true, Some (1, 2)); (true, Some (2, 2)); (false, None); (true, Some (1, 130)); (true, None); (false, None);
+     (true, None); (false, None); (true, Some (2, 130)); (false, None); (true, None); (false, None);
+     (true, Some (2, 2)); (true, Some (2, 130))]%N /\
+  map (fun ob => match ob with (ok, c, i) => (ok, match c with Some c => Some (cuser c, clevel c) | None => None end) end)
+      (run_obs (fixed d 128) init
+        [Login 1 true; OktaOtp [0%nat] (VGood 1); OktaPushStart [0%nat]; OktaApprove 1; OktaPoll [0%nat]])
+  = [(true, Some (1, 2)); (false, None); (false, None); (true, None); (false, None)]%N.
+Proof. split; vm_compute; reflexivity. Qed.
